@@ -360,6 +360,9 @@ pub fn models(tier: Tier, seed: u64) -> Vec<Box<dyn DynModel>> {
         bounded(M05::<Bls12381G2Impl>::new(tier, seed), 2),
         bounded(MTags, 1),
     ]
+    .into_iter()
+    .chain(crate::props::aggx::models("C05", tier, seed))
+    .collect()
 }
 
 pub fn describe(_tier: Tier, r: &mut Report) {
